@@ -4,16 +4,67 @@
    The model of the whole tool is Writers.Colander.colander (directory image
    -> directory image); the correspondence check compares it with the output
    directory of Colander.strain byte for byte / token for token on every run.
-   What is PROVED about that model, for every input, is the binary core: the
-   per-file worker, variable resolution and the contents of a strained box.
-   The re-mapping of the returned offsets to box order (strain_level) and the
-   text rewriting of the two headers are part of the executable model and are
-   tied to the code by the correspondence only (C05 is therefore a partial
-   proof: see DESIGN.md). *)
+   PROVED about that model, for every well-formed plotfile: the whole tool
+   (C05_tool) - it writes exactly the directory image of the strained plotfile
+   [colander_spec]; below it the pieces: variable resolution, the per-file
+   worker, the re-mapping of offsets to box order for any layout
+   (C05_level_any_layout), the text rewriting of the level header
+   (C05_level_header), what a strained box holds. *)
 From AK Require Import Base.Prelude Bytes.Text Bytes.FabHeader Bytes.BinFile
   Reader.Select Reader.BoxRead Reader.Level Reader.ReadSpec
-  Plotfile.TextHeader Taste.Taste Plotfile.Abstract
-  Writers.Colander Writers.ColanderSpec Writers.ColanderSpecProofs Writers.ColanderProofs.
+  Plotfile.TextHeader Plotfile.HeaderSpec Taste.Taste Plotfile.Abstract
+  Writers.Colander Writers.ColanderSpec Writers.ColanderSpecProofs Writers.ColanderProofs
+  Writers.ColanderLevelProofs Writers.ColanderHeaderProofs Writers.ColanderToolProofs Writers.ColanderPipeline.
+
+(* MAIN STATEMENT.  For every well-formed plotfile stored under the standard
+   level directories (any number of levels, boxes and fields, 2D or 3D, any
+   box -> file distribution and on-disk order), every variable list naming at
+   least one existing field ('all', repeats, unknown names, any order) and
+   every admissible level limit: the tool writes exactly the directory image of
+   [colander_spec vars lim pf] - the kept levels only; in every box the kept
+   components bit for bit in the requested order; the same file names, inside a
+   file the boxes in box order; level headers with the new field count, byte
+   offsets and the kept columns of the min/max tables; a global header naming
+   the kept fields and levels.  Nothing else is in the output. *)
+Theorem C05_tool : forall vars limit lim pf,
+  wf_plotfile pf -> std_dirs pf -> wf_counts pf -> wf_rows pf ->
+  eff_limit (g_max_level (pf_g pf)) limit = Some lim -> 0 <= lim ->
+  fst (resolve_vars (field_keys (g_names (pf_g pf)) []) vars) <> [] ->
+  colander vars limit (pf_disk pf) = Some (pf_disk (colander_spec vars lim pf)).
+Proof. exact colander_refines. Qed.
+
+(* The strained plotfile is again a well-formed plotfile under the standard
+   directories (hence accepted by the validator: C03, and a valid input: C14). *)
+Theorem C05_output_wellformed : forall pf vars lim,
+  good pf -> 0 <= lim <= g_max_level (pf_g pf) -> good (colander_spec vars lim pf).
+Proof. exact spec_good. Qed.
+
+(* One level, any layout: the per-file tasks and the scattering of their
+   results back to box order produce the binary files of the strained level
+   and its offsets table, and that layout is well-formed. *)
+Theorem C05_level_any_layout : forall lv kept nvars c,
+  wf_level lv = true ->
+  Forall (fun fb => fab_nc fb = nvars) (lv_fabs lv) -> Forall (fun i => 0 <= i < nvars) kept ->
+  c_indexes c = map (fun fb => (fab_lo fb, fab_hi fb)) (lv_fabs lv) ->
+  c_files c = map fst (cells_or_nil lv) -> c_offsets c = map snd (cells_or_nil lv) ->
+  strain_level (lv_disk lv) c nvars kept
+  = Some (lv_disk (strained_lv lv kept), map snd (cells_or_nil (strained_lv lv kept)))
+  /\ wf_level (strained_lv lv kept) = true.
+Proof.
+  intros lv kept nvars c H1 H2 H3 H4 H5 H6. split.
+  - apply (strain_level_spec lv H1 kept nvars H2 H3 c H4 H5 H6).
+  - apply (wf_strained lv H1 kept nvars H2 H3).
+Qed.
+
+(* The level header: field count, offsets and table columns replaced,
+   everything else copied. *)
+Theorem C05_level_header : forall nf c kept offs,
+  wf_cellh true c -> c_indexes c <> [] ->
+  Forall (fun r => blen r = nf) (c_mins c) -> Forall (fun r => blen r = nf) (c_maxs c) ->
+  kept <> [] -> Forall (fun i => 0 <= i < nf) kept ->
+  length offs = length (c_indexes c) ->
+  update_cell_header (print_cellh nf c) kept offs = Some (print_cellh (blen kept) (strained_cellh c kept offs)).
+Proof. exact update_cell_header_print. Qed.
 
 (* Variable resolution: every kept index names an input field, there is one
    output name per kept index ('all', unknown names, repeats and any order
@@ -78,3 +129,53 @@ Example C05_worker_example :
   = Some (encode_file [keep_fab [2; 0] fb0; keep_fab [2; 0] fb1],
           [0; fab_size (keep_fab [2; 0] fb0)]).
 Proof. vm_compute. reflexivity. Qed.
+
+(* non-vacuity of the tool theorem: a two-level plotfile whose level 1 stores
+   its two boxes in one file in the order (1, 0) is good; the tool model run on
+   its image gives the image of the specification (recomputed here) *)
+Definition ex_g : gheader :=
+  {| g_version := [bs "HyperCLaw-V1.1"]; g_names := [bs "a"; bs "b"];
+     g_ndims := 2; g_time := bs "0.5"; g_max_level := 1;
+     g_geo_low := [bs "0.0"; bs "0.0"]; g_geo_high := [bs "2.0"; bs "1.0"];
+     g_factors := [2]; g_grid_hi := [[1; 0]; [3; 1]]; g_steps := [7; 7];
+     g_dx := [[bs "1.0"; bs "1.0"]; [bs "0.5"; bs "0.5"]]; g_sys_coord := [bs "0"] |}.
+Definition ex_bytes (n : nat) (c : ascii) : bytes := repeat c n.
+Definition ex_l0 : plevel :=
+  {| pl_boxes := {| lb_ncells := 1; lb_step_line := [bs "7"];
+                    lb_boxes := [[(bs "0.0", bs "2.0"); (bs "0.0", bs "1.0")]];
+                    lb_cell_dir := bs "Level_0"; lb_time_tok := bs "0.5" |};
+     pl_level := {| lv_fabs := [ {| fab_lo := [0; 0]; fab_hi := [1; 0]; fab_nc := 2;
+                                    fab_data := ex_bytes 16 "a"%char ++ ex_bytes 16 "b"%char |} ];
+                    lv_files := [ (bs "Cell_D_00000", [0%nat]) ] |};
+     pl_mins := [[bs "1.0"; bs "2.0"]]; pl_maxs := [[bs "3.0"; bs "4.0"]] |}.
+Definition ex_l1 : plevel :=
+  {| pl_boxes := {| lb_ncells := 2; lb_step_line := [bs "7"];
+                    lb_boxes := [[(bs "0.0", bs "1.0"); (bs "0.0", bs "1.0")];
+                                 [(bs "1.0", bs "2.0"); (bs "0.0", bs "1.0")]];
+                    lb_cell_dir := bs "Level_1"; lb_time_tok := bs "0.5" |};
+     pl_level := {| lv_fabs := [ {| fab_lo := [0; 0]; fab_hi := [1; 1]; fab_nc := 2;
+                                    fab_data := ex_bytes 32 "c"%char ++ ex_bytes 32 "d"%char |};
+                                 {| fab_lo := [2; 0]; fab_hi := [3; 1]; fab_nc := 2;
+                                    fab_data := ex_bytes 32 "e"%char ++ ex_bytes 32 "f"%char |} ];
+                    lv_files := [ (bs "Cell_D_00000", [1%nat; 0%nat]) ] |};
+     pl_mins := [[bs "1.0"; bs "2.0"]; [bs "5.0"; bs "6.0"]];
+     pl_maxs := [[bs "3.0"; bs "4.0"]; [bs "7.0"; bs "8.0"]] |}.
+Definition ex_pf : plotfile := {| pf_g := ex_g; pf_levels := [ex_l0; ex_l1] |}.
+
+Example C05_ex_good : good ex_pf.
+Proof.
+  unfold good, wf_plotfile, std_dirs, wf_counts, wf_rows, wf_gheader. cbn.
+  repeat split; try reflexivity; try lia;
+    repeat (first [ constructor | reflexivity | discriminate | lia | (intros [H|H]; [discriminate | try destruct H]) | split ]).
+  - intros [].
+  - intros [|[|[|k]]] pl H; cbn [nth_error] in H; try discriminate; injection H as <-; reflexivity.
+Qed.
+
+Example C05_ex_tool : colander [bs "b"; bs "zz"; bs "a"] None (pf_disk ex_pf)
+  = Some (pf_disk (colander_spec [bs "b"; bs "zz"; bs "a"] 1 ex_pf)).
+Proof. vm_compute. reflexivity. Qed.
+
+Print Assumptions C05_tool.
+Print Assumptions C05_output_wellformed.
+Print Assumptions C05_level_any_layout.
+Print Assumptions C05_level_header.
